@@ -26,7 +26,8 @@ Record step_obs := {
   t_delivered : bool;  (* the object was stored / removed and an event reached the controller *)
   t_res : Z;           (* 0 none, 1 ok, 2 requeue, 3 error *)
   t_hosts : list host_obs;
-  t_x : list (string * Z)   (* per cross probe (Host, SNI of the connection): serving cluster ("" = none), status *)
+  t_x : list (string * Z);  (* per cross probe (Host, SNI of the connection): serving cluster ("" = none), status *)
+  t_mid : list (list host_obs)  (* the host probes repeated after every single manager mutation of the delivery *)
 }.
 
 (* --- what the property says about one host, given the objects currently in the API *)
@@ -103,6 +104,47 @@ Definition request_ok (api : list obj) (hs : string * string) (x : string * Z) :
 (* one delivered event: the name it carries, its result, and the op that first delivered this very object *)
 Record ev := { ev_name : string; ev_res : Z; ev_src : nat }.
 
+(* clause 9 ("at every moment"): while one event is being applied, a probe that lands between two manager
+   mutations sees, for every host, either what it saw before the event or what it sees after it - so a name
+   that belongs to the same cluster before and after (the cluster's own name, every retained server name,
+   every name of any other cluster) never stops resolving to it, with that cluster's TLS material, and no
+   name ever resolves to a cluster that lists it in neither version *)
+Definition either_s (x a b : string) : bool := (String.eqb x a || String.eqb x b)%bool.
+Definition by_name (api : list obj) (c : string) : option obj := find (fun o => String.eqb (lowname o) c) api.
+(* material / options / status of the version of cluster c stored in api ("" = no cluster: the gateway's own) *)
+Definition tls_cl (api : list obj) (c : string) : option (Z * Z * bool) :=
+  if String.eqb c "" then Some (0, 0, false) else
+  match by_name api c with
+  | Some o => Some (if ((pair_of o =? 0) && (o_ca o =? 0))%bool then (0, 0, false)
+                    else (pair_of o, o_ca o, negb (o_ca o =? 0)))
+  | None => None
+  end.
+Definition verify_cl (api : list obj) (c : string) : option (bool * Z) :=
+  if String.eqb c "" then Some (false, 0) else
+  match by_name api c with
+  | Some o => Some (if o_ca o =? 0 then (false, 0) else (true, o_ca o))
+  | None => None
+  end.
+Definition code_cl (api : list obj) (c : string) : option Z :=
+  if String.eqb c "" then Some 503 else
+  match by_name api c with
+  | Some o => Some (if deny_gate o then 429 else 0)
+  | None => None
+  end.
+Definition in2 {A} (eqb : A -> A -> bool) (x : A) (a b : option A) : bool :=
+  (match a with Some v => eqb x v | None => false end || match b with Some v => eqb x v | None => false end)%bool.
+
+Definition mid_ok (before after : list obj) (hs : string * string) (b : host_obs) : bool :=
+  let rk := req_key (fst hs) in
+  let sk := sni_key (snd hs) in
+  (* the serving cluster is the owner before or the owner after the event *)
+  (either_s (h_c b) (owner_name before rk) (owner_name after rk)
+   && either_s (h_tc b) (owner_name before sk) (owner_name after sk)
+   (* and what is served is that cluster's (old or new version's) status, material and options *)
+   && in2 Z.eqb (h_code b) (code_cl before (h_c b)) (code_cl after (h_c b))
+   && in2 triple_eqb (h_cert b, h_ca b, h_reqcert b) (tls_cl before (h_tc b)) (tls_cl after (h_tc b))
+   && in2 vpair_eqb (h_vok b, h_vca b) (verify_cl before (h_c b)) (verify_cl after (h_c b)))%bool.
+
 Record sstate := {
   sp_api : list obj;               (* objects currently stored: the LATEST version of every cluster *)
   sp_fclean : bool;                (* so far: every stored object passed field validation, no delivery ended in an
@@ -138,11 +180,12 @@ Definition api_disjoint (api : list obj) : bool :=
 (* the gateway has had the chance to reach the state the property describes: the stored objects do not
    contradict each other, and for every stored cluster the controller has processed, successfully, an event
    about it after its current version was stored (a rejected version waits for its requeue; until then the
-   property cannot be judged) *)
+   property cannot be judged).  Result 0 = the event was handed to the controller's event handler and nothing
+   was queued for it: nothing is pending either, so the state is judged (an event must not be lost) *)
 Definition settled (s : sstate) : bool :=
   (api_disjoint (sp_api s)
    && forallb (fun p => match lastev_get (fst p) (sp_lastev s) with
-                        | Some (idx, r) => ((r =? 1) && Nat.leb (snd p) idx)%bool
+                        | Some (idx, r) => (((r =? 1) || (r =? 0)) && Nat.leb (snd p) idx)%bool
                         | None => false
                         end) (sp_latest s))%bool.
 Definition judged (s : sstate) : bool := (sp_fclean s && settled s)%bool.
@@ -212,7 +255,7 @@ Fixpoint judged_after (s : sstate) (l : list (op * step_obs)) : bool :=
   | (p, b) :: r => judged_after (snext s p b) r
   end.
 
-(* the eight clauses for one step *)
+(* the nine clauses for one step *)
 Definition step_ok (hosts xps : list (string * string)) (s : sstate) (p : op) (b : step_obs) : list bool :=
   let s' := snext s p b in
   let clean := judged s' in            (* "current" = the latest stored version of every cluster *)
@@ -227,12 +270,15 @@ Definition step_ok (hosts xps : list (string * string)) (s : sstate) (p : op) (b
     if clean then forallb (fun x => tls_ok (sp_api s') (fst x) (snd x)) hb else true;
     norm_ok hosts (t_hosts b);
     if fclean then forallb alive_ok (t_hosts b) else true;
-    if clean then forall2b (request_ok (sp_api s')) xps (t_x b) else true ].
+    if clean then forall2b (request_ok (sp_api s')) xps (t_x b) else true;
+    if (judged s && clean)%bool
+    then forallb (fun obs => forallb (fun x => mid_ok (sp_api s) (sp_api s') (fst x) (snd x)) (combine hosts obs)) (t_mid b)
+    else true ].
 
 Definition and_lists (a b : list bool) : list bool := map (fun p => (fst p && snd p)%bool) (combine a b).
 
 Fixpoint hist_ok (hosts xps : list (string * string)) (s : sstate) (l : list (op * step_obs)) : list bool :=
   match l with
-  | [] => [true; true; true; true; true; true; true; true]
+  | [] => [true; true; true; true; true; true; true; true; true]
   | (p, b) :: r => and_lists (step_ok hosts xps s p b) (hist_ok hosts xps (snext s p b) r)
   end.
